@@ -75,6 +75,10 @@ pub fn model(tier: Tier) -> Hist {
         assert!(act::apply(&w, &mut r3, &a).committed, "{:?}", a);
     }
     roots.push(("F3".to_string(), mk(r3)));
+    // F4: u0 as a bankruptcy settlement leaves it: its positions (F1) stay, the account is disabled (forged flag)
+    let mut r4 = r1.clone();
+    world::edit_account(&mut r4, &w.users[0].account, |a| a.account_flags |= marginfi_type_crate::types::ACCOUNT_DISABLED);
+    roots.push(("F4".to_string(), mk(r4)));
     let mut alpha = Alphabet::standard(vec![0, 1], if tier == Tier::Quick { vec![0, 1, 2, 3] } else { vec![0, 1, 2, 3, 4] });
     alpha.accrue = false;
     alpha.collect = false;
@@ -171,7 +175,7 @@ pub fn run(tier: Tier) -> Outcome {
         &["liquidate:ok:structure_checked", "transfer_account:ok:transferred", "close_account:ok:account_closed", "deposit:6047", "borrow:6047"],
         "every action sequence up to the depth bound (deposit, withdraw, withdraw-all, borrow, repay, repay-all, close-balance, liquidation in every asset/debt bank combination, transfer, close-account; not pruned) over banks tagged default / SOL / staked (forged) / isolated; after every committed transaction every changed account is checked for distinct banks, one side per bank, sorted prefix, tag compatibility, bounds, tag stability; closes, disabled accounts and transfers are judged on their pre/post states; plus a 17-bank slot-exhaustion run and a 0..16 x 0..9 x 6-tag sweep of the position-opening routine",
         vec!["environment model E1 (svm-lite)".into(), "the staked-collateral bank is a forged tag on a regular bank; integration (Kamino/Drift/Solend) positions exist only in the component-level sweep".into()],
-        &["F0", "F1", "F2", "F3"],
+        &["F0", "F1", "F2", "F3", "F4"],
     );
     let (n1, slot_classes) = slots_sweep(&mut o.found);
     let n2 = find_or_create_sweep(&mut o.found);
